@@ -344,7 +344,7 @@ func (x *Exec) Discharge(cfg *SolverCfg) []*Result {
 	wg.Wait()
 	// second chance: an obligation that was only UNDECIDED (solver timeout, e.g. on a loaded
 	// machine) is retried with a much longer timeout before it is reported. The budget is small
-	// (at most 4 obligations per call, all at once, 3x the timeout): many undecided obligations are not a load
+	// (at most 6 obligations per call, 3 at a time, 4x the timeout): many undecided obligations are not a load
 	// effect, and a changed function must not make the check run for an hour.
 	var retry []job
 	for _, j := range jobs {
@@ -352,14 +352,14 @@ func (x *Exec) Discharge(cfg *SolverCfg) []*Result {
 			retry = append(retry, j)
 		}
 	}
-	if len(retry) > 4 {
+	if len(retry) > 6 {
 		retry = nil // many undecided obligations are not a load effect
 	}
 	if len(retry) > 0 {
-		long := &SolverCfg{Timeout: cfg.Timeout * 3, Workers: 4}
+		long := &SolverCfg{Timeout: cfg.Timeout * 4, Workers: 3}
 		rch := make(chan job)
 		var rwg sync.WaitGroup
-		for w := 0; w < 4; w++ {
+		for w := 0; w < 3; w++ {
 			rwg.Add(1)
 			go func() {
 				defer rwg.Done()
